@@ -343,6 +343,10 @@ def same_path_check(p, name, c1, c2):
 def family_unit(p, item, tier, seed):
     rnd = random.Random(item)
     fam = [(n, c) for n, c in circgen.feature_circuits() + circgen.large_circuits(item) if expressible(c)] if item % 8 == 0 else []
+    if item % 8 == 0:
+        # a bench text well beyond 64 KiB (files are read in one go or in chunks: every line must arrive)
+        bench_pool = [G.NOT, G.AND, G.OR, G.XOR, G.NAND, G.NOR, G.NXOR]
+        fam.append(("large-4000-gates-long-labels", circgen.large_circuit(random.Random(item + 77), 12, 4000, pool=bench_pool, max_arity=2, prefix="internal_signal_")))
     for i in range(25 if tier == "quick" else 60):
         c = circgen.random_circuit(rnd, rnd.randint(1, 4), rnd.randint(1, 8), max_arity=3, n_outputs=rnd.randint(1, 3), shuffle_storage=bool(i % 2))
         fam.append((f"seeded[{item}:{i}]", c))
